@@ -63,6 +63,17 @@ def diffApplyDomain (a b : Mappings) : Option (Diff × JStr) :=
       else if !decide (ParamSrcless a b) then none
       else some (d, nsName)
 
+/-- `text` (lines separated by LF, cells by TAB) with cell 4 — the source cell — of its first parameter row (`\t\tp\t…`)
+replaced by `src`; `none`: there is no such row (mirror of `with_param_src` in harness/src/bin/c04.rs) -/
+def withParamSrc (text src : JStr) : Option JStr :=
+  let lines := TinyDiff.splitOn TinyDiff.LF text
+  match lines.findIdx? (fun l => l.take 4 == [9, 9, 112, 9]) with
+  | none => none
+  | some i =>
+    let cells := TinyDiff.splitOn TinyDiff.TAB (lines.getD i [])
+    if cells.length ≤ 4 then none else
+    some (List.intercalate [TinyDiff.LF] (lines.set i (List.intercalate [TinyDiff.TAB] (cells.set 4 src))))
+
 def handleC04 (op : String) (args : List Sexp) : Option Ans :=
   match op, args with
   | "apply", [d, t, ns] => do
@@ -142,6 +153,17 @@ def handleC04 (op : String) (args : List Sexp) : Option Ans :=
           match applyTo d' a nsName with
           | none => failTag "refused"
           | some r => if eqvMappings r b then passTag else failTag "differs")
+  | "oracle-param-src-cell", [d, src] => do
+    let d ← diffFrom d; let src ← toJStr? src
+    pure (if !decide (Writable d) || !plainCell src then oodTag else
+      match withParamSrc (TinyDiff.writeSpec d) src with
+      | none => oodTag
+      | some text =>
+        match TinyDiff.read text, src.isEmpty with
+        | some d', true => if d' == normDiff d then passTag else failTag "read_differs"
+        | none, true => failTag "unreadable"
+        | some _, false => failTag "source_cell_accepted"
+        | none, false => passTag)
   | "oracle-read-write", [d] => do
     let d ← diffFrom d
     pure (if !decide (Writable d) then oodTag else
